@@ -9,7 +9,7 @@ from .eval import Unsupported, PY_EXC
 class Contract:
     def __init__(self, qual, params="", returns=None, requires=(), ensures=(), raises=None, may_raise=(), modifies=(),
                  loops=None, effects=(), trusted=None, pure=False, allocates=None, ensures_raise=None, ghost=None,
-                 exact_raises=True, props=(), yields=None, inline_ok=False, fn_override=None, closure_env=None, notes=""):
+                 exact_raises=True, props=(), yields=None, logs=(), inline_ok=False, fn_override=None, closure_env=None, notes=""):
         self.qual = qual
         self.params = parse_params(params)
         self.returns = returns
@@ -26,6 +26,7 @@ class Contract:
         self.allocates = (not pure) if allocates is None else allocates
         self.exact_raises = exact_raises
         self.props = list(props)
+        self.logs = list(logs)
         self.yields = yields                        # element type of a generator's yielded values
         self.fn_override = fn_override
         self.closure_env = closure_env
@@ -198,6 +199,12 @@ class CallMixin:
             return self.call_closure(fv, args, kwargs, st, node)
         if k == "lambda":
             return self.call_lambda(fv, args, kwargs, st, node)
+        if k == "superbound":
+            recv, key = fv.xs
+            return self.apply_contract(self.need_contract(key, node), [recv] + list(args), kwargs, st, node)
+        if k == "superext":
+            recv, ext = fv.xs
+            return self.ext_models[ext](self, st, [recv] + list(args), kwargs, node)
         if k == "param_func":
             return self.apply_contract(fv.xs, args, kwargs, st, node)
         return self.call_dynamic(fv, args, kwargs, st, node)
@@ -425,7 +432,10 @@ class CallMixin:
         env2 = dict(env, result=res)
         for cl in c.ensures:
             st.assume(self.spec_eval_in(cl, st, env2, pre))
+        for tag, exprs in c.logs:
+            st.log.append((tag,) + tuple(self.spec_value_in(x, st, env2, pre) for x in exprs) + (getattr(node, "lineno", 0),))
         self.after_call(c, env2, st, node)
+        st.log.append(("call", c.qual, dict(env), res, getattr(node, "lineno", 0)))
         out.append((st, res))
         return out
 
@@ -440,6 +450,16 @@ class CallMixin:
                 self.havoc_target(m, st, None)
             finally:
                 st.env = saved
+
+    def spec_value_in(self, text, st, env, old):
+        saved_env, saved_mod = st.env, self.cur_mod
+        st.env = dict(env)
+        if self._spec_mod is not None:
+            self.cur_mod = self._spec_mod
+        try:
+            return self.spec_value(text, st, None, old=old)
+        finally:
+            st.env, self.cur_mod = saved_env, saved_mod
 
     def spec_eval_in(self, text, st, env, old, goal=False):
         """evaluate a clause of *another* function's contract: its parameter names only, in its own module scope"""
